@@ -670,6 +670,7 @@ def rule_wakeup(ctx: Ctx, prog: Program) -> None:
             for e in stores:
                 okk = (e.root == trig and len(e.idx) == 1 and isinstance(e.value, Aff) and e.value == ONE and e.aug is None)
                 if not okk:
+                    n_set += 1
                     ctx.violation("R-WAKEUP", fn.path, fn.name, "scan-store", f"{fn.path}:{e.line}",
                                   f"the wake-up scan stores {View(e.root, e.idx)!r} = {show_val(e.value) if isinstance(e.value, Aff) else e.value!r}: "
                                   "the wake-up scan may only set flags of the queue (clearing one un-queues a constraint whose input changed)")
@@ -742,4 +743,4 @@ def rule_queue_writers(ctx: Ctx, prog: Program, thorough: bool = False) -> None:
                           "out); clearing it elsewhere discards a pending execution, e.g. the re-queueing of a constraint by its own write-back")
         else:
             ctx.ok("R-QUEUE-WRITERS", f"writer {fn.qualname}: only sets flags")
-    ctx.floor("R-QUEUE-WRITERS:writers", n, 3)
+    ctx.floor("R-QUEUE-WRITERS:writers", n, 2)
